@@ -596,7 +596,7 @@ func drawMultiPackages(t *rapid.T) *multiPkgs {
 
 		// Package-level variables.
 		var vars strings.Builder
-		g := &pgen{t: t, ty: ty, consts: consts}
+		g := &pgen{t: t, ty: ty, consts: consts, noIntern: true}
 		g.mults = g.maxMults() - 1 // at most one multiplication per package
 		nvars := rapid.IntRange(0, 3).Draw(t, "nvars")
 		if i < 2 && nvars == 0 {
@@ -712,7 +712,7 @@ func drawMultiMain(t *rapid.T, m *multiPkgs) string {
 	m.nmains++
 	var sb strings.Builder
 	sb.WriteString("package main\n\nimport (\n")
-	g := &pgen{t: t, ty: ty, reads: []string{"a", "b"}}
+	g := &pgen{t: t, ty: ty, reads: []string{"a", "b"}, noIntern: true}
 	for _, j := range order {
 		sb.WriteString(importLine(t, &pkgs[j]))
 		g.calls = append(g.calls, pkgs[j].name+"."+pkgs[j].fn+"(%s)")
@@ -832,7 +832,7 @@ func drawNativeProgram(t *rapid.T) (string, []string, []File, []string) {
 		}
 		cname := rapid.SampledFrom(circNames).Draw(t, "circname")
 		files = append(files, File{Path: name + "/" + cname, Text: drawBristol(t, w, layers)})
-		g := &pgen{t: t, ty: ty}
+		g := &pgen{t: t, ty: ty, noIntern: true}
 		var sb strings.Builder
 		fmt.Fprintf(&sb, "package %s\n\n", name)
 		fmt.Fprintf(&sb, "const K%d = %s\n\n", i, g.lit())
